@@ -599,8 +599,8 @@ def _gen_static(rng, tag):
 class Prop(PropBase):
     ID = "C33"
     tiers = {
-        "quick": {"runs": 400, "selftest_runs": 4},
-        "thorough": {"runs": 9000, "selftest_runs": 32},
+        "quick": {"runs": 1200, "selftest_runs": 4},
+        "thorough": {"runs": 30000, "selftest_runs": 32},
     }
     rule = ("one run = one generated design (1-2 TModules, 0-3 transactions, 0-2 methods with ready inputs and "
             "arguments, 2-5 emission sites under nested If/Elif/Else/Switch inside or outside bodies; event classes with "
